@@ -250,7 +250,7 @@ func C04(p *core.Program, r *core.Report) {
 	if itf := mustFunc(p, r, "V5", domutilPkg+".InnerText"); itf != nil {
 		for _, f := range recursiveWorkers(p, itf) {
 			if len(core.Calls(p.Inlined(f), func(ci ssa.CallInstruction) bool {
-				return core.IsCallTo(ci, "(*bytes.Buffer).WriteString", "(*strings.Builder).WriteString")
+				return isSinkWrite(ci)
 			})) > 0 {
 				innerFinder = f
 			}
@@ -269,9 +269,8 @@ func C04(p *core.Program, r *core.Report) {
 			},
 			Event: func(in ssa.Instruction, c *core.Canon) (string, bool) {
 				if call, ok := in.(*ssa.Call); ok {
-					s := c.Of(call)
-					if strings.HasPrefix(s, "bytes.Buffer.WriteString(") || strings.HasPrefix(s, "strings.Builder.WriteString(") {
-						return "write " + c.Of(call.Call.Args[1]), true
+					if s, ok := sinkWritten(call, c); ok {
+						return "write " + s, true
 					}
 					if isSelfCall(p, innerFinder, call) {
 						var nodes []string
